@@ -12,7 +12,7 @@ class C06(InterpProp):
     cmp_callbacks = False
     cmp_err = 'class'
     cmp_time = False
-    quick_cases = 1000
+    quick_cases = 2500
     thorough_cases = 30000
     n_ops = 50
     rule = ('random well-formed charts rich in shallow and deep history states at several depths (inside orthogonal '
